@@ -11,7 +11,8 @@ var reGoroutineHdr = regexp.MustCompile(`(?m)^goroutine \d+ \[([^\]]+)\]:$`)
 
 // isStalled decides "nobody can move" from the state of the program, not from elapsed time: two full
 // goroutine dumps taken a poll apart must show every /repo goroutine parked in the same place, in a
-// blocking state (chan send/receive, select, IO wait, sync.Mutex.Lock, semacquire).
+// blocking state (chan send/receive, select, IO wait, sync.Mutex.Lock, semacquire). A goroutine in time.Sleep is NOT
+// parked for good — it wakes by itself (an injected delay, a back-off) — so its presence means "can still move".
 func isStalled() (bool, string) {
 	d1 := repoGoroutines()
 	time.Sleep(300 * time.Millisecond)
@@ -29,7 +30,7 @@ func isStalled() (bool, string) {
 			st = st[:i]
 		}
 		switch st {
-		case "chan send", "chan receive", "select", "IO wait", "sync.Mutex.Lock", "semacquire", "sync.RWMutex.Lock", "sync.RWMutex.RLock", "sync.WaitGroup.Wait", "sync.Cond.Wait", "sleep", "select (no cases)", "chan receive (nil chan)", "chan send (nil chan)":
+		case "chan send", "chan receive", "select", "IO wait", "sync.Mutex.Lock", "semacquire", "sync.RWMutex.Lock", "sync.RWMutex.RLock", "sync.WaitGroup.Wait", "sync.Cond.Wait", "select (no cases)", "chan receive (nil chan)", "chan send (nil chan)":
 		default:
 			return false, d2
 		}
